@@ -209,3 +209,60 @@ Theorem C13_xguard_nonvacuous :
    sq_var_q s 0%N 0%N false = QVal 3%Z /\ sq_var_q s 0%N 1%N true = QVal 5%Z /\ sq_var_q s 2%N 1%N true = QVal 8%Z).
 Proof. exact xguard_nonvacuous. Qed.
 Print Assumptions C13_xguard_nonvacuous.
+
+(* (7) THE OTHER RESOLUTIONS OF A FUNCTION NAME (added after the reported defect "(fboundp 'p:f) is nil although
+   (p:f) can be called"): fboundp, symbol-function, (function name), fdefinition and function-lambda-expression
+   on a plain, p:n or p::n name follow the rule of the call - one colon: exported from p, two colons: any
+   function of p - after ANY history, on its longest guarded prefix: the masks of the five resolvers predicted
+   by M (the code repaired by C13-14) equal those S demands, for all 42 function slots after every step *)
+Theorem C13_function_resolvers_follow_call : forall ops,
+  let g := xguard_prefix PK NM (sinit 0) ops in
+  firstn g (map fobserve (xrun PK VN FN (init 0) ops)) = firstn g (map fobserve (sxrun PK VN FN (sinit 0) ops)).
+Proof. exact frefinement_prefix_PK. Qed.
+Print Assumptions C13_function_resolvers_follow_call.
+
+(* what the masks are: per current package and function name the mask of name, p:name, p::name - a function of
+   FindFunc's answer (M) / of the resolution (S) *)
+Theorem C13_resolver_masks_of_model : forall s,
+  fobserve (observe PK VN FN s) =
+  flat_map (fun c => flat_map (fun n => res_mask (q_fun s c c n false) ::
+     flat_map (fun p => [res_mask (q_fun s c p n false); res_mask (q_fun s c p n true)]) PK) FN) PK.
+Proof. exact fobserve_observe. Qed.
+Print Assumptions C13_resolver_masks_of_model.
+Theorem C13_resolver_masks_of_spec : forall s,
+  fobserve (sobserve PK VN FN s) =
+  flat_map (fun c => flat_map (fun n => res_mask (sq_fun s c c n false) ::
+     flat_map (fun p => [res_mask (sq_fun s c p n false); res_mask (sq_fun s c p n true)]) PK) FN) PK.
+Proof. exact fobserve_sobserve. Qed.
+Print Assumptions C13_resolver_masks_of_spec.
+
+Theorem C13_fselfcheck_unreachable : forall c, fcheck_case c <> 3%N.
+Proof. exact fselfcheck_unreachable. Qed.
+Print Assumptions C13_fselfcheck_unreachable.
+
+(* the unrepaired code (fboundp / symbol-function looked "p:n" up as a key of the current package) refuted *)
+Theorem C13_original_fboundp_qualified_refuted :
+  let ops := [XB (ODefun 2%N 1%Z)] in
+  xguard_prefix PK NM (sinit 0%N) ops = 1%nat /\
+  sq_fun (fold_left sxstep ops (sinit 0%N)) 1%N 0%N 2%N true = QVal 1%Z /\
+  res_mask (sq_fun (fold_left sxstep ops (sinit 0%N)) 1%N 0%N 2%N true) = 31%N /\
+  res_mask_orig true (q_fun (fold_left xstep ops (init 0%N)) 1%N 0%N 2%N true) = 28%N.
+Proof. exact original_fboundp_qualified_refuted. Qed.
+Print Assumptions C13_original_fboundp_qualified_refuted.
+
+(* (8) QUALIFIED FMAKUNBOUND: (fmakunbound 'p:n) / (fmakunbound 'p::n) is a step of the histories of (6)
+   (XFmakunboundQ: C13_xstep_preserves_relation, C13_xrefinement_general and C13_xrefinement_prefix quantify
+   over it; its guard clause is the one of (fmakunbound 'n) evaluated in p, and only when the name is visible).
+   Non-vacuity and the refutation of the unrepaired code (a silent no-op): from package 1, two colons remove
+   the private function of package 0 in S and in M, one colon leaves it; the unrepaired step keeps the
+   function where S removes it *)
+Theorem C13_qualified_fmakunbound_nonvacuous_and_original_refuted :
+  let two := [XB (ODefun 2%N 1%Z); XB (OInPkg 1%N); XFmakunboundQ 0%N 2%N true] in
+  let one := [XB (ODefun 2%N 1%Z); XB (OInPkg 1%N); XFmakunboundQ 0%N 2%N false] in
+  xguard_run PK NM (sinit 0%N) two = true /\ xguard_run PK NM (sinit 0%N) one = true /\
+  sq_fun (fold_left sxstep two (sinit 0%N)) 1%N 0%N 2%N true = QUnbound /\
+  q_fun (fold_left xstep two (init 0%N)) 1%N 0%N 2%N true = QUnbound /\
+  sq_fun (fold_left sxstep one (sinit 0%N)) 1%N 0%N 2%N true = QVal 1%Z /\
+  q_fun (fmakunbound_q_orig (fold_left xstep [XB (ODefun 2%N 1%Z); XB (OInPkg 1%N)] (init 0%N)) 0%N 2%N true) 1%N 0%N 2%N true = QVal 1%Z.
+Proof. exact fmakunbound_q_nonvacuous. Qed.
+Print Assumptions C13_qualified_fmakunbound_nonvacuous_and_original_refuted.
